@@ -227,12 +227,28 @@ def make_case(args):
             return d, dict(wspd=mk(2, 20), wdir=mk(0, 360), dpt=mk(8, 300))
 
         dA, auxA = big_world(rng.choice([8, 10]), rng.choice([12, 16]), 6, 4)
-        dB, auxB = big_world(rng.choice([5, 7, 9]), rng.choice([6, 10, 14]), 4, 3)
+        if rng.random() < 0.5:
+            # the second dataset has the SAME number of bins on another grid shape (nd × nf): static tables of the native routine
+            # that are sized by the bin count must still be rebuilt for the shape
+            dB, auxB = big_world(dA.sizes["dir"], dA.sizes["freq"], 4, 3)
+        else:
+            dB, auxB = big_world(rng.choice([5, 7, 9]), rng.choice([6, 10, 14]), 4, 3)
+
+        def fresh_native():
+            # a call on a grid with another number of bins: whatever the routine keeps between calls is rebuilt by the next one
+            try:
+                from wavespectra.partition import partition as _P
+
+                _P.specpart.partition(np.zeros((3, 5), dtype=np.float32), 100)
+            except Exception:
+                pass
         for op in ("ptm1", "ptm2", "ptm3"):
             rec = dict(op=f"concurrent:{op}", icase=icase, scheduler="threads", workers=16, shapes=[list(dA.shape), list(dB.shape)],
                        chunks="one spectrum per chunk", dims=list(dA.dims), shape=[int(x) for x in dA.shape], spectral_split=False)
             try:
+                fresh_native()
                 ref1 = norm(op, opcat.canon(compute(C[op](dA, auxA))), dA)
+                fresh_native()
                 ref2 = norm(op, opcat.canon(compute(C[op](dB, auxB))), dB)
                 r1 = C[op](dA.chunk({"time": 1, "site": 1}), auxA)
                 r2 = C[op](dB.chunk({"time": 1, "site": 1}), auxB)
